@@ -6,6 +6,14 @@ FIX_COMMITS = subprocess.run(["git","-C","/repo","log","--format=%h %s","5dec6d4
 
 # id -> (technique, level text, level note, design ref)
 CHECKS = {
+ "C07": ("interprocedural field-based path-taint classification (SAFE / ANCHORED / TAINTED) of every filesystem path argument, with taint sources derived from the wire decoders and stream reads (go/ssa + call graph)",
+         "Structural necessary conditions decided for every one of the ~80 path arguments of os.*, filepath.Walk and FileStore.* in the server packages: no def-use chain from client-controlled bytes (fields filled by the decoders or read from a connection, through conversions, concatenation, Join, Sprintf, charmap decode, struct fields, closures, parameters and returns) reaches a path argument without having passed Join(\"/\", ...) - whose Clean removes every '..' - before being placed behind a trusted root; ReadPath analysed with tainted path/name parameters returns a SAFE path; a classifier control (tainted source, anchoring) must be observed in the tree on every run.",
+         "Trusted: filepath.Clean semantics, the Macintosh charmap maps ASCII to itself (no other byte decodes to '/' or '.'), unknown leaves (configuration, file-system names) are trusted. Not decided: symlinks inside the root that point outside (operator-made), case-insensitive or normalising filesystems, the per-account FileRoot chosen by the operator. The abstraction is field-based (one cell per struct field): it can only add alarms, not lose flows through fields.",
+         "4/C07"),
+ "C11": ("sibling completeness between the path fields a fileWrapper uses and what Move/Delete handle, symbolic name comparison, edge-cut reachability for ignore patterns and mkdir (go/ssa)",
+         "Narrow structural part: every path field a fileWrapper hands to the filesystem is renamed by Move to Join(newPath, the matching name method) and removed by Delete, the name methods build the names NewFileWrapper looks for, and only 'does not exist' is tolerated for side files; listing encoder and path decoder are NewEncoder/NewDecoder of one charmap in both packages; the ignore predicate with the configured list guards both the entries and the folder counts; list and get-info take size/type from the same source; Mkdir only on the 'does not exist' edge.",
+         "Not decided: everything history- or content-dependent (the bulk of the statement): results of sequences of file operations, sizes/types agreeing with the bytes on disk, alias/set-comment effects.",
+         "4/C11"),
  "C03": ("must-hold lockset dataflow over every shared map access, lock release / lock order, recover-guard shape, goroutine panic-site search over the call graph, defer pairing, registration gate (go/ssa + call graph)",
          "Structural necessary conditions for containment: the two per-connection entry functions defer a directly-recovering dontPanic first and all handlers/transfer handlers are only called below them; no explicit panic or unchecked type assertion is reachable from a goroutine that is not recover-guarded; every lookup/store/delete/range on a map held in a struct field runs with a mutex of the owning struct held on the same object (a concurrent map write is an unrecoverable process abort); every Lock is released on all paths and the lock-order graph is acyclic; gauges, the transfer registration and the client registration are paired with deferred releases; a connection is registered only when authenticated and with a non-nil account.",
          "Trusted: 'concurrent map access is fatal' and recover semantics of the Go runtime. Not decided: absence of every panic or deadlock, timeliness of replies to other clients, memory/descriptor exhaustion, the rate limiter's effectiveness, the client library (excluded, reported).",
